@@ -51,6 +51,8 @@ def scenario(max_depth: int = 120, max_steps: Optional[int] = 2000000) -> C.Scen
         sc.max_steps = max_steps
     sc.overrides["get_netqasm_logger"] = lambda *a_, **k_: Log()
     sc.method_overrides = {}
+    sc.externals.update({"traceback.format_tb": lambda *a_, **k_: ["<traceback>"], "traceback.format_exc": lambda *a_, **k_: "<traceback>",
+                         "traceback.print_exc": lambda *a_, **k_: None})
     return sc
 
 
